@@ -61,6 +61,23 @@ theorem S_sse (l : List ι) (y f0 f1 f2 : ι → K) (a b c a' b' c' : K) :
   | nil => simp
   | cons i t ih => simp only [S_cons]; linear_combination ih
 
+theorem S_map {κ : Type*} (l : List κ) (g : κ → ι) (f : ι → K) : S (l.map g) f = S l (fun k => f (g k)) := by
+  unfold S; rw [List.map_map]; rfl
+
+/-- sums of products of affinely rescaled quantities -/
+theorem S_affine_mul (l : List ι) (f g : ι → K) (a b c d : K) :
+    S l (fun i => (a * f i + b) * (c * g i + d))
+      = a * c * S l (fun i => f i * g i) + a * d * S l f + b * c * S l g + (l.length : K) * (b * d) := by
+  induction l with
+  | nil => simp
+  | cons i t ih => simp only [S_cons, List.length_cons]; push_cast; linear_combination ih
+
+theorem S_affine (l : List ι) (f : ι → K) (a b : K) :
+    S l (fun i => a * f i + b) = a * S l f + (l.length : K) * b := by
+  induction l with
+  | nil => simp
+  | cons i t ih => simp only [S_cons, List.length_cons]; push_cast; linear_combination ih
+
 end ring
 
 section cramer
